@@ -78,8 +78,10 @@ def handle (j : Json) : Except String Json := do
       | some f => match f.getNat? with
         | .ok k => let r := runN env strict fault k fs0 p0; (r.1, r.2, true)
         | .error _ => let r := run env strict fault fs0 p0; (r.1, r.2, false)
+    -- the target as an observer sees it after each of the calls issued (index i = after i calls)
+    let tsnaps := (List.range (p.log.length + 1)).map fun i => fileJ ((runN env strict fault i fs0 p0).1 target)
     pure (Json.mkObj [("trace", traceJ p crashed), ("out", outJ p), ("target", fileJ (fs target)),
-                      ("tmp", fileJ (fs t)), ("tmpname", strJ t)])
+                      ("tmp", fileJ (fs t)), ("tmpname", strJ t), ("tsnaps", Json.arr tsnaps.toArray)])
   | "sched" =>
     let ja ← jobj j "A"
     let jb ← jobj j "B"
